@@ -223,7 +223,7 @@ class InterpCore(object):
                  "super", "round", "reversed", "open", "bool", "object", "Exception", "ValueError", "KeyError",
                  "NotImplementedError", "ImportError", "StopIteration", "AttributeError", "TypeError", "any", "all",
                  "map", "filter", "repr", "callable", "id", "type", "divmod", "pow", "setattr", "frozenset", "delattr",
-                 "vars", "globals",
+                 "vars", "globals", "hash",
                  "staticmethod", "classmethod", "property",
                  "IndexError", "RuntimeError", "LookupError", "ZeroDivisionError", "OverflowError", "ArithmeticError",
                  "AssertionError", "OSError", "IOError", "FloatingPointError", "NameError", "UnicodeError", "BaseException")
